@@ -1607,7 +1607,7 @@ def assemble(repo, unit, cfg, opts=None):
         if mod != "crate":
             asm.emit("use vstd::prelude::*;\n")
         if unit.get("broadcast", True):
-            asm.emit("broadcast use crate::vf_lemmas::vf_lemma_subrange_full;\n")
+            asm.emit("broadcast use {crate::vf_lemmas::vf_lemma_subrange_full, crate::vf_lemmas::vf_bv_facts};\n")
         for u in ov.uses.get(mod, []):
             asm.emit(u + "\n")
         for text, f, l in ov.raw.get(mod, []):
